@@ -776,6 +776,9 @@ class AnimalSpecies:
 
         NE_required = self.NE_balance.kcals
         if NE_required == 0:
+            # nothing is required, so the whole (possibly empty) herd counts as fed; without this the
+            # fed count of an earlier month lingers and the starving count goes negative
+            self.population_fed = self.current_population
             return grass_input, feed_input
 
         # Calculate NE from grass, if ruminant, else 0
